@@ -249,26 +249,30 @@ example : TriggerFree ⟨false, false, false, false⟩ false
 /-- **pen_survives_pause** (full statement). After every history inside the contract that leaves the
     terminal running - whatever pause/resume cycles it contains - the terminal renders with the pen the
     program asked for: every attribute named by `setpen`/`chpen` since the terminal was built has, on the
-    terminal, the value last asked for (`Modes.logicalPen`), so that is what later drawing is rendered with. -/
+    terminal, the value last asked for (`Modes.logicalPen`), so that is what later drawing is rendered with.
+    Colours may carry RGB8 refinements: on a terminal whose RGB8 capability is on (probed or forced) the
+    terminal renders the 24-bit colour, otherwise the palette index (`Modes.sem`).  `CapKept`: the capability
+    is not changed while the pen holds a colour that depends on it. -/
 def PenSurvivesPause (cfg : Cfg) : Prop :=
   ∀ (toplevel : Bool) (m0 : VModes) (ops : List Op), validFrom .running ops = some .running →
-    penShown (vtAfter cfg toplevel m0 ops).attrs (ghostAfter cfg toplevel ops).pen = true
+    CapKept cfg toplevel ops →
+    penShown (sysAfter cfg toplevel ops).term.drv.rgbOn (vtAfter cfg toplevel m0 ops).attrs (ghostAfter cfg toplevel ops).pen = true
 
 theorem pen_survives_pause_partial (cfg : Cfg) (toplevel : Bool) (m0 : VModes) (ops : List Op)
-    (hv : validFrom .running ops = some .running) (hnt : PenTriggerFree cfg toplevel ops) :
-    penShown (vtAfter cfg toplevel m0 ops).attrs (ghostAfter cfg toplevel ops).pen = true :=
-  penShown_of _ _ _ (prun_inv cfg ops _ _ .running .running {} (build_pinv toplevel m0) (build_tk toplevel) hv hnt)
+    (hv : validFrom .running ops = some .running) (hck : CapKept cfg toplevel ops) (hnt : PenTriggerFree cfg toplevel ops) :
+    penShown (sysAfter cfg toplevel ops).term.drv.rgbOn (vtAfter cfg toplevel m0 ops).attrs (ghostAfter cfg toplevel ops).pen = true :=
+  penShown_of _ _ _ (prun_inv cfg ops _ _ .running .running {} (build_pinv toplevel m0) (build_tk toplevel) hv hnt hck)
 
 theorem pen_survives_pause (cfg : Cfg) (hr : cfg.resumeResendsPen = true) : PenSurvivesPause cfg :=
-  fun toplevel m0 ops hv =>
-    pen_survives_pause_partial cfg toplevel m0 ops hv (noPenTrigger_of_repaired cfg hr ops _)
+  fun toplevel m0 ops hv hck =>
+    pen_survives_pause_partial cfg toplevel m0 ops hv hck (noPenTrigger_of_repaired cfg hr ops _)
 
-/-- The cached pen *is* the logical pen (so "rendered with the cached pen" and "rendered with the pen asked
-    for" are the same statement). -/
+/-- The cached pen *is* the logical pen, RGB8 refinements included (so "rendered with the cached pen" - what
+    `tickit_term_resume` sends again - and "rendered with the pen asked for" are the same statement). -/
 theorem cached_pen_is_logical (cfg : Cfg) (toplevel : Bool) (m0 : VModes) (ops : List Op) (ph : Phase)
-    (hv : validFrom .running ops = some ph) (hnt : PenTriggerFree cfg toplevel ops) :
+    (hv : validFrom .running ops = some ph) (hck : CapKept cfg toplevel ops) (hnt : PenTriggerFree cfg toplevel ops) :
     (sysAfter cfg toplevel ops).term.pen = (ghostAfter cfg toplevel ops).pen :=
-  (prun_inv cfg ops _ _ .running ph {} (build_pinv toplevel m0) (build_tk toplevel) hv hnt).pen
+  (prun_inv cfg ops _ _ .running ph {} (build_pinv toplevel m0) (build_tk toplevel) hv hnt hck).pen
 
 /-- `setpen bold; pause; resume`: the terminal renders plain, the pen asked for (and cached) is bold; a
     following `setpen bold` writes nothing. -/
@@ -277,7 +281,7 @@ def pausePenHistory : List Op := [.setpen (fun a => if a = .bold then some 1 els
 set_option maxRecDepth 8000 in
 theorem pen_survives_pause_counterexample (k u r : Bool) : ¬ PenSurvivesPause ⟨k, false, u, r⟩ := by
   intro h
-  have h1 := h false {} pausePenHistory rfl
+  have h1 := h false {} pausePenHistory rfl (by cases k <;> cases u <;> cases r <;> decide)
   revert h1
   cases k <;> cases u <;> cases r <;> decide
 
@@ -290,8 +294,10 @@ theorem pause_pen_next_setpen_silent :
 example : validFrom .running pausePenHistory = some .running ∧ ¬ PenTriggerFree ⟨true, false, true, true⟩ false pausePenHistory := by
   decide
 
-example : penShown (vtAfter Cfg.repaired true {} sampleHistory).attrs (ghostAfter Cfg.repaired true sampleHistory).pen = true :=
-  pen_survives_pause Cfg.repaired rfl true {} sampleHistory (by decide)
+set_option maxRecDepth 8000 in
+example : penShown (sysAfter Cfg.repaired true sampleHistory).term.drv.rgbOn (vtAfter Cfg.repaired true {} sampleHistory).attrs
+    (ghostAfter Cfg.repaired true sampleHistory).pen = true :=
+  pen_survives_pause Cfg.repaired rfl true {} sampleHistory (by decide) (by decide)
 
 set_option maxRecDepth 8000 in
 /-- The sample history's pen is visible on the terminal after two pause/resume cycles (bold, palette 200). -/
@@ -303,5 +309,158 @@ example : (vtAfter Cfg.repaired false {} sampleHistory).attrs .bold = 1 ∧
 example : PenTriggerFree ⟨false, false, false, false⟩ false
     [.setpen (fun a => if a = .bold then some 1 else none), .setpen PenMap.empty, .pause, .resume,
      .setpen (fun a => if a = .bold then some 1 else none)] := by decide
+
+/-! ### RGB8 colours across pause/resume -/
+
+/-- **resume_reestablishes_pen.** A pause/resume cycle appended to a history that left the terminal running
+    ends with the terminal rendering the pen asked for before the pause - RGB8 refinements included: resume
+    re-establishes the logical pen, and that is what later drawing is rendered with. -/
+theorem resume_reestablishes_pen (cfg : Cfg) (hr : cfg.resumeResendsPen = true) (toplevel : Bool) (m0 : VModes)
+    (ops : List Op) (hv : validFrom .running ops = some .running) (hck : CapKept cfg toplevel ops) :
+    penShown (sysAfter cfg toplevel (ops ++ [.pause, .resume])).term.drv.rgbOn
+      (vtAfter cfg toplevel m0 (ops ++ [.pause, .resume])).attrs (ghostAfter cfg toplevel ops).pen = true := by
+  have hv' : validFrom .running (ops ++ [.pause, .resume]) = some .running := by
+    rw [validFrom_append, hv]; rfl
+  have h := pen_survives_pause cfg hr toplevel m0 _ hv' (capKeptRun_append_pause_resume cfg ops _ hck)
+  have hg : ghostAfter cfg toplevel (ops ++ [.pause, .resume]) = ghostAfter cfg toplevel ops := by
+    unfold ghostAfter; rw [ghostRun_append]; rfl
+  rwa [hg] at h
+
+def fgPen (v : Int) : PenMap := fun a => if a = .fg then some v else none
+
+/-- The terminal reports 24-bit colours; the program draws with palette colour 5 refined to `#112233`, pauses
+    and resumes. -/
+def rgbHistory : List Op :=
+  [.replySgr true true, .setpen (fgPen (rgbEnc 5 0x11 0x22 0x33)), .print [104], .pause, .resume]
+
+/-- … then replaces the colour by the plain palette colour 5, and pauses and resumes again. -/
+def rgbDroppedHistory : List Op := rgbHistory ++ [.setpen (fgPen 5), .pause, .resume]
+
+set_option maxRecDepth 20000 in
+example : validFrom .running rgbDroppedHistory = some .running ∧ CapKept Cfg.repaired false rgbDroppedHistory := by decide
+
+set_option maxRecDepth 20000 in
+/-- The theorem is about something: after the first cycle the terminal renders the 24-bit colour, after the
+    second the palette colour that replaced it (not the stale 24-bit one). -/
+example : (vtAfter Cfg.repaired false {} rgbHistory).attrs .fg = rgbCode 0x11 0x22 0x33 ∧
+    (vtAfter Cfg.repaired false {} rgbDroppedHistory).attrs .fg = 5 := by decide
+
+set_option maxRecDepth 20000 in
+example : penShown (sysAfter Cfg.repaired false rgbDroppedHistory).term.drv.rgbOn
+    (vtAfter Cfg.repaired false {} rgbDroppedHistory).attrs (ghostAfter Cfg.repaired false rgbDroppedHistory).pen = true :=
+  pen_survives_pause Cfg.repaired rfl false {} rgbDroppedHistory (by decide) (by decide)
+
+set_option maxRecDepth 20000 in
+/-- Without the capability the same pen is rendered with its palette index, before and after the cycle. -/
+example : (vtAfter Cfg.repaired false {} (rgbHistory.drop 1)).attrs .fg = 5 := by decide
+
+set_option maxRecDepth 20000 in
+/-- `CapKept` excludes exactly this: the capability is forced on while an RGB8 colour is in use; the terminal
+    goes on rendering the palette index the colour was sent as. -/
+example : ¬ CapKept Cfg.repaired false [.setpen (fgPen (rgbEnc 5 0x11 0x22 0x33)), .ctl (some .capRgb8) 1] ∧
+    CapKept Cfg.repaired false [.ctl (some .capRgb8) 1, .setpen (fgPen (rgbEnc 5 0x11 0x22 0x33)), .ctl (some .capRgb8) 1] := by
+  decide
+
+/-! ### the output buffer: pause, teardown and destruction leave nothing pending -/
+
+/-- The bytes that have reached the output function after building a terminal with an output buffer of `cap`
+    bytes (`0`: none) and performing `ops` (the start-up queries are written before the buffer exists). -/
+def deliveredAfter (cfg : Cfg) (toplevel : Bool) (cap : Nat) (ops : List Op) : Out :=
+  (Sys.build toplevel).2 ++ (Sys.runB cfg (Sys.build toplevel).1 { cap := cap } ops).2.2
+
+/-- **nothing_pending_after_pause.** Whatever the size of the output buffer: when the last call of a history
+    inside the contract that ends paused or torn down returns, the buffer is empty and every byte written so
+    far has reached the output function. -/
+theorem nothing_pending_after_pause (cfg : Cfg) (toplevel : Bool) (cap : Nat) (ops : List Op) (ph : Phase)
+    (hv : validFrom .running ops = some ph) (hne : ph ≠ .running) :
+    (Sys.runB cfg (Sys.build toplevel).1 { cap := cap } ops).2.1.pend = [] ∧
+    deliveredAfter cfg toplevel cap ops = (Sys.build toplevel).2 ++ (Sys.run cfg (Sys.build toplevel).1 ops).2 := by
+  obtain ⟨h1, h2⟩ := runB_nothing_pending cfg ops ph (Sys.build toplevel).1 cap hv hne
+  exact ⟨h1, by unfold deliveredAfter; rw [h2]⟩
+
+/-- **teardown_restores_buffered.** … so the terminal, reading only what has been delivered at that moment, is
+    back in the modes it started in with the default rendition. -/
+theorem teardown_restores_buffered (cfg : Cfg) (hk : cfg.keypadRecorded = true) (hr : cfg.repliesGuarded = true)
+    (toplevel : Bool) (m0 : VModes) (cap : Nat) (ops : List Op) (ph : Phase) (hm0 : m0.standard = true)
+    (hv : validFrom .running ops = some ph) (hne : ph ≠ .running) :
+    restoredOk (VT.feed ⟨.ground, m0, Attrs.default⟩ (deliveredAfter cfg toplevel cap ops)) m0 = true := by
+  rw [(nothing_pending_after_pause cfg toplevel cap ops ph hv hne).2, feed_append]
+  exact (teardown_restores cfg hk hr toplevel m0 ops ph hm0 hv).1 hne
+
+theorem teardown_restores_buffered_partial (cfg : Cfg) (toplevel : Bool) (m0 : VModes) (cap : Nat) (ops : List Op) (ph : Phase)
+    (hm0 : m0.standard = true) (hv : validFrom .running ops = some ph) (hne : ph ≠ .running)
+    (hnt : TriggerFree cfg toplevel ops) :
+    restoredOk (VT.feed ⟨.ground, m0, Attrs.default⟩ (deliveredAfter cfg toplevel cap ops)) m0 = true := by
+  rw [(nothing_pending_after_pause cfg toplevel cap ops ph hv hne).2, feed_append]
+  exact (teardown_restores_partial cfg toplevel m0 ops ph hm0 hv hnt).1 hne
+
+/-- Destruction (of the terminal, or of the toplevel instance while `extra` other holders keep the terminal)
+    ends with a flush: nothing stays in the buffer, whatever it held. -/
+theorem destruction_leaves_nothing_pending (b : OBuf) (s : Sys) (extra : Nat) :
+    (b.call (s.dropOwner extra).2 true).1.pend = [] ∧ (b.call (s.dropOwner extra).2 true).2 = b.pend ++ (s.dropOwner extra).2 :=
+  (OBuf.call_stream b _ true).2.2 rfl
+
+/-- Non-vacuity: with a buffer of 8 bytes, a mode setting stays in the buffer; pause delivers it together with
+    the resets. -/
+example : (Sys.runB Cfg.repaired (Sys.build false).1 { cap := 8 } [.ctl (some .cursorvis) 0]).2.1.pend = visOff ∧
+    (Sys.runB Cfg.repaired (Sys.build false).1 { cap := 8 } [.ctl (some .cursorvis) 0, .pause]).2.2 = visOff ++ visOn ++ sgrReset ∧
+    (Sys.runB Cfg.repaired (Sys.build false).1 { cap := 8 } [.ctl (some .cursorvis) 0, .pause]).2.1.pend = [] := by decide
+
+/-! ### a terminal shared between the toplevel instance and another holder -/
+
+/-- **destroy_shared_restores.** Destroying the toplevel instance restores the terminal whether or not the
+    terminal object survives it (`extra` references held by others): the bytes are those of the exclusive case. -/
+theorem destroy_shared_restores_partial (cfg : Cfg) (m0 : VModes) (ops : List Op) (ph : Phase) (extra : Nat)
+    (hm0 : m0.standard = true) (hv : validFrom .running ops = some ph) (hnt : TriggerFree cfg true ops) :
+    restoredOk (VT.feed (vtAfter cfg true m0 ops) ((sysAfter cfg true ops).dropOwner extra).2) m0 = true := by
+  have ht : (sysAfter cfg true ops).top.isSome = true := by
+    unfold sysAfter; rw [run_top]; rfl
+  rw [dropOwner_top _ extra ht]
+  exact (teardown_restores_partial cfg true m0 ops ph hm0 hv hnt).2
+
+theorem destroy_shared_restores (cfg : Cfg) (hk : cfg.keypadRecorded = true) (hr : cfg.repliesGuarded = true)
+    (m0 : VModes) (ops : List Op) (ph : Phase) (extra : Nat) (hm0 : m0.standard = true)
+    (hv : validFrom .running ops = some ph) :
+    restoredOk (VT.feed (vtAfter cfg true m0 ops) ((sysAfter cfg true ops).dropOwner extra).2) m0 = true :=
+  destroy_shared_restores_partial cfg m0 ops ph extra hm0 hv (triggerFree_of_repaired cfg hk hr true ops)
+
+/-- The terminal that survives is torn down; dropping its last reference later writes nothing more. -/
+theorem shared_terminal_left_torn_down (cfg : Cfg) (ops : List Op) (extra : Nat) (left : Sys)
+    (h : ((sysAfter cfg true ops).dropOwner extra).1 = some left) :
+    left.term.state = .unstarted ∧ left.destroy = [] ∧ left.top = none :=
+  dropOwner_left _ extra (by unfold sysAfter; rw [run_top]; rfl) left h
+
+set_option maxRecDepth 8000 in
+/-- Non-vacuity: after the setup the shared terminal is in the alternate screen with mouse reporting, and
+    destroying the instance while one other reference exists leaves a terminal object (torn down). -/
+example : (vtAfter Cfg.repaired true {} [.tick false]).modes.altscreen = true ∧
+    (vtAfter Cfg.repaired true {} [.tick false]).modes.mouse = 1002 ∧
+    (((sysAfter Cfg.repaired true [.tick false]).dropOwner 1).1.map fun l => l.term.state) = some .unstarted ∧
+    ((sysAfter Cfg.repaired true [.tick false]).dropOwner 0).1.isNone = true := by decide
+
+/-! ### a control set before the terminal's reply to the start-up query arrives -/
+
+/-- **shape_survives_late_reply.** Whatever the driver knows about the terminal so far (in particular before
+    it has learnt that the terminal has DECSCUSR at all): a cursor shape the program sets is what the control
+    reads after the terminal's DECSCUSR report has arrived. -/
+theorem shape_survives_late_reply (cfg : Cfg) (hr : cfg.repliesGuarded = true) (d : XDrv) (v r : Int)
+    (hv : 0 ≤ v ∧ v ≤ 3) :
+    getctlInt (onDecrqssShape cfg (setctlInt cfg d (some .cursorshape) v).1 r) (some .cursorshape) = some v := by
+  have hw : ModeLayout.w_mode_cursorshape = 2 ∧ ModeLayout.w_initialised_cursorshape = 2 := by decide
+  have h1 : wrapU 2 1 = 1 := by decide
+  have h2 : ((wrapU 2 v : Nat) : Int) = v := by
+    rcases (by omega : v = 0 ∨ v = 1 ∨ v = 2 ∨ v = 3) with rfl | rfl | rfl | rfl <;> decide
+  unfold setctlInt
+  simp only [hr, hw.1, hw.2, if_true]
+  split
+  · rename_i hc
+    simp [getctlInt, onDecrqssShape, hr, hc.1, hc.2]
+  · simp [getctlInt, onDecrqssShape, hr, h1, h2]
+
+/-- Non-vacuity, as a history: shape 2 is set before any reply, then the terminal reports shape 1 (and that it
+    blinks); the control still reads 2. -/
+example : getctlInt (sysAfter Cfg.repaired false [.ctl (some .cursorshape) 2, .replyShape 1, .replyMode 12 1]).term.drv
+    (some .cursorshape) = some 2 ∧
+    validFrom .running [.ctl (some .cursorshape) 2, .replyShape 1, .replyMode 12 1] = some .running := by decide
 
 end Tickit.Props.C12
